@@ -68,7 +68,39 @@ def opts_letter(o):
     """o: None or dict(ignore=None/True/False, sample_count=None/int, attr=bool)."""
     if o is None:
         return "-"
-    return {None: "n", True: "t", False: "f"}[o.get("ignore")] + ("" if o.get("sample_count") is None else str(o["sample_count"]))
+    return ({None: "n", True: "t", False: "f"}[o.get("ignore")] + ("e" if o.get("threads_empty") else "")
+            + ("" if o.get("sample_count") is None else str(o["sample_count"])))
+
+
+COUNTER_KINDS = ["bytes", "chars", "cycles", "items"]
+COUNTER_TYPES = {"bytes": "BytesCount", "chars": "CharsCount", "cycles": "CyclesCount", "items": "ItemsCount"}
+
+
+def counter_parts(o):
+    """Attribute options for o["counters"] = [(how, kind, value)], how in counter / counters / field."""
+    parts, arr = [], []
+    for (how, kind, v) in (o.get("counters") or []):
+        if how == "field":
+            parts.append("%s_count = %du32" % (kind, v))
+        elif how == "counter":
+            parts.append("counter = divan::counter::%s::new(%du32)" % (COUNTER_TYPES[kind], v))
+        else:
+            arr.append("divan::counter::%s::new(%du64)" % (COUNTER_TYPES[kind], v))
+    if arr:
+        parts.append("counters = [%s]" % ", ".join(arr))
+    return parts
+
+
+def options_digest(o):
+    """What the registry must hold for these written options."""
+    if o is None:
+        return "none"
+    counts = {k: "-" for k in COUNTER_KINDS}
+    for (_, kind, v) in (o.get("counters") or []):
+        counts[kind] = str(v)
+    return "%s/%s/%s/%s" % ({None: "n", True: "t", False: "f"}[o.get("ignore")],
+                            "-" if o.get("sample_count") is None else o["sample_count"],
+                            ".".join(counts[k] for k in COUNTER_KINDS), "e" if o.get("threads_empty") else "-")
 
 
 class Prog:
@@ -148,9 +180,31 @@ class Prog:
         go(self.items, 0)
         return out
 
+    def digest(self):
+        """Registered options as written: one record per entry that is registered, sorted."""
+        self.source()
+        recs = []
+
+        def go(items, modpath):
+            for it in items:
+                if it["k"] == "F":
+                    if it.get("rows") == "empty":
+                        continue
+                    recs.append("%s~%s~%d=%s" % (enc(modpath), enc(it["raw"]), it["line"], options_digest(it.get("opts"))))
+                elif it["k"] == "M":
+                    g = it.get("group")
+                    if g is not None:
+                        recs.append("%s~%s~%d=%s" % (enc(modpath), enc(it["raw"]), g["line"], options_digest(g.get("opts"))))
+                    go(it["items"], modpath + "::" + it["raw"])
+                else:
+                    go(it["items"], modpath)
+        go(self.items, self.crate)
+        return ";".join(sorted(recs))
+
     def line(self, acts, exe, ign="n", exact=False, pos=(), skip=(), sort="-"):
         cfg = ",".join(["C", acts, ign, "e" if exact else "r", lst(pos), lst(skip), sort])
-        return " ".join([cfg, "X," + enc(exe)] + self.tokens())
+        extra = ["O," + enc(self.digest())] if "O" in acts else []
+        return " ".join([cfg, "X," + enc(exe)] + extra + self.tokens())
 
     # ---- the real crate ----
     def source(self):
@@ -172,6 +226,9 @@ class Prog:
             if o is not None:
                 if o.get("sample_count") is not None:
                     parts.append("sample_count = %d" % o["sample_count"])
+                if o.get("threads_empty"):
+                    parts.append(o.get("threads_expr", "threads = []"))
+                parts.extend(counter_parts(o))
                 how = o.get("how")
                 if o.get("ignore") is not None and not o.get("attr") and how not in ("attr_before", "attr_after", "reason", "reason_after"):
                     if how == "expr":
@@ -366,6 +423,33 @@ pub mod support {
         lines.sort();
         println!("{}", lines.join(";"));
     }
+    fn opt_digest(m: &divan::__private::EntryMeta) -> String {
+        let rec = match m.bench_options.as_deref() {
+            None => "none".to_string(),
+            Some(o) => {
+                let dbg = format!("{:?}", o.counters);
+                let inner = dbg.split('[').nth(1).and_then(|s| s.split(']').next()).unwrap_or("");
+                let counts: Vec<String> = inner.split(", ").map(|c| {
+                    if c == "None" { "-".to_string() } else { c.trim_start_matches("Some(").trim_end_matches(')').to_string() }
+                }).collect();
+                let threads = match o.threads.as_deref() {
+                    None => "-".to_string(),
+                    Some([]) => "e".to_string(),
+                    Some(l) => l.iter().map(|n| n.to_string()).collect::<Vec<_>>().join("."),
+                };
+                format!("{}/{}/{}/{}", match o.ignore { None => "n", Some(true) => "t", Some(false) => "f" },
+                        match o.sample_count { Some(n) => n.to_string(), None => "-".into() }, counts.join("."), threads)
+            }
+        };
+        format!("{}~{}~{}={}", enc(m.module_path), enc(m.raw_name), m.location.line, rec)
+    }
+    pub fn optdump() {
+        use divan::__private::{BENCH_ENTRIES, GROUP_ENTRIES};
+        let mut recs: Vec<String> = BENCH_ENTRIES.iter().map(|e| opt_digest(&e.meta)).collect();
+        recs.extend(GROUP_ENTRIES.iter().map(|g| opt_digest(&g.meta)));
+        recs.sort();
+        println!("{}", recs.join(";"));
+    }
     pub fn child_main() {
         let api = std::env::var("HX_API").unwrap_or_else(|_| "main".into());
         let res = std::panic::catch_unwind(|| match api.as_str() {
@@ -373,6 +457,7 @@ pub mod support {
             "list_benches" => divan::Divan::from_args().list_benches(),
             "test_benches" => divan::Divan::from_args().test_benches(),
             "dump" => dump(),
+            "optdump" => optdump(),
             other => panic!("HX_API {other}"),
         });
         use std::io::Write;
@@ -626,6 +711,21 @@ def feature_tour(crate):
                         group=dict(name="Raw In Group", opts=dict(ignore=True, attr=True)))],
           group=dict(name="Outer G")),
         dict(k="N", fname="outer_fn", items=[F("nested_in_fn")]),
+        # options that consist of counters only (every spelling), on functions and on group modules
+        F("cnt_counter", opts=dict(counters=[("counter", "items", 3)])),
+        F("cnt_counters", opts=dict(counters=[("counters", "bytes", 8), ("counters", "chars", 2)])),
+        F("cnt_bytes", opts=dict(counters=[("field", "bytes", 16)]), bencher=True),
+        F("cnt_chars", opts=dict(counters=[("field", "chars", 5)])),
+        F("cnt_cycles", opts=dict(counters=[("field", "cycles", 7)]), args=("arr_i", [1, 2])),
+        F("cnt_items_gen", types=[0, 1], opts=dict(counters=[("field", "items", 2)])),
+        F("cnt_and_more", opts=dict(counters=[("field", "items", 9)], sample_count=4)),
+        M("g_cnt", [F("below_cnt")], group=dict(opts=dict(counters=[("field", "bytes", 64)]))),
+        M("g_cnt2", [F("below_cnt2")], group=dict(name="Counted", opts=dict(counters=[("counter", "cycles", 11)]))),
+        # `threads` present but empty: on a function, inherited from a group, as an empty range
+        F("thr_empty", opts=dict(threads_empty=True)),
+        F("thr_empty_args", opts=dict(threads_empty=True), args=("arr_i", [5, 6])),
+        F("thr_empty_range", opts=dict(threads_empty=True, threads_expr="threads = 0..0")),
+        M("g_thr", [F("below_thr"), F("below_thr_gen", types=[0, 6])], group=dict(opts=dict(threads_empty=True))),
         # every way of writing `ignore`
         F("ign_after", opts=dict(ignore=True, how="attr_after")),
         F("ign_reason", opts=dict(ignore=True, how="reason")),
